@@ -1,7 +1,5 @@
-(* TrieGaps (C18): exact when the target is the empty prefix; for a general target the result is
-   exact for the EFFECTIVE target (the node where the descent along the target stops), which is
-   the target only when the trie branches all along it -- otherwise it is an ancestor of the
-   target (finding F13, witnesses at the end). *)
+(* TrieGaps is exact for every target (C18): the result is the set of gaps of the key set below the
+   target.  (Model of the code after the repair of finding F13.) *)
 From Verif.Lib Require Import GoSem Bits.
 From Verif.Model Require Import Trie Keyspace.
 From Verif.Proofs Require Import KeyspaceBase KeyspaceProofs KeyspaceCovered.
@@ -90,7 +88,7 @@ Qed.
 
 (* the gaps contributed by a leaf k below the path p' (|p'| = n): the siblings of the prefixes of k
    longer than p' *)
-Lemma leaf_gaps p' k x :
+Lemma leaf_sib_gaps p' k x :
   is_prefix p' k = true ->
   ((exists a b c, k = a ++ b :: c /\ x = a ++ [negb b] /\ length p' <= length a) <->
    (is_prefix p' x = true /\ comparable x k = false /\ comparable (removelast x) k = true)).
@@ -131,10 +129,12 @@ Definition gaps_visit (rec : trie D -> nat -> bits -> bits -> res (list bits))
   if (skip : bool) then Ok []
   else
     let br := child t0 t1 i in
+    let above := negb (length target <=? depth) && (S depth <? length target) in
     match br with
-    | E => Ok [[i]]
+    | E => if above then Ok (map (skipn depth) (leaf_gaps None target order)) else Ok [[i]]
     | L k _ =>
-        if S depth <? length k then
+        if above then Ok (map (skipn depth) (leaf_gaps (Some k) target order))
+        else if S depth <? length k then
           Ok (map (skipn depth) (sort_by_order (skipn (S depth) (sibling_prefixes k)) order))
         else Ok []
     | Nd _ _ => g <- rec br (S depth) target order ;; Ok (map (cons i) g)
@@ -148,28 +148,10 @@ Lemma gaps_at_Nd (t0 t1 : trie D) depth target order :
   Ok (g1 ++ g2).
 Proof. reflexivity. Qed.
 
-(* the effective target: the node where the descent along the target stops *)
-Fixpoint eff_at (s : trie D) (depth : nat) (target path : bits) : bits :=
-  match s with
-  | Nd t0 t1 =>
-      match nth_error target depth with
-      | Some i => let c := child t0 t1 i in
-                  match c with
-                  | Nd _ _ => eff_at c (S depth) target (path ++ [i])
-                  | _ => path ++ [i]
-                  end
-      | None => path
-      end
-  | _ => path
-  end.
-
-(* the gaps found below the child c at path p' *)
-Definition child_gaps (c : trie D) (p' : bits) (e : bits) (x : bits) : Prop :=
-  match c with
-  | E => x = p'
-  | L k _ => exists a b r, k = a ++ b :: r /\ x = a ++ [negb b] /\ length p' <= length a
-  | Nd _ _ => is_gap (keys_of c) e x
-  end.
+(* the target as seen from the subtrie at path p (|p| = depth): the target itself while descending
+   along it, the path once inside it *)
+Definition tgt (depth : nat) (target p : bits) : bits :=
+  if length target <=? depth then p else target.
 
 Lemma exists_key p (a b : trie D) : wf_at p (Nd a b) -> exists y, In y (keys_of (Nd a b)).
 Proof.
@@ -177,64 +159,129 @@ Proof.
   exfalso. pose proof (size_keys (Nd a b)) as S. rewrite E1 in S. simpl in *. lia.
 Qed.
 
-(* what one visited branch contributes, in absolute terms (p prepended) *)
+(* leafGaps is exact *)
+Lemma leaf_gaps_none target order x : In x (leaf_gaps None target order) <-> is_gap [] target x.
+Proof.
+  simpl. unfold is_gap, incomparable_all. split.
+  - intros [<-|[]]. split; [apply is_prefix_refl|]. split; [intros k []|left; reflexivity].
+  - intros [_ [_ [H|[k [[] _]]]]]. left. symmetry. exact H.
+Qed.
+
+Lemma leaf_gaps_some k target order x : In x (leaf_gaps (Some k) target order) <-> is_gap [k] target x.
+Proof.
+  unfold leaf_gaps, is_gap, incomparable_all. simpl.
+  destruct (is_prefix target k) eqn:Etk.
+  - rewrite sort_by_order_In, sib_skipn. rewrite (leaf_sib_gaps target k x Etk). split.
+    + intros [H1 [H2 H3]]. split; [exact H1|]. split; [intros k' [<-|[]]; exact H2|]. right. exists k. auto.
+    + intros [H1 [H2 H3]]. split; [exact H1|]. split; [apply H2; left; reflexivity|].
+      destruct H3 as [->|[k' [[<-|[]] H3]]]; [|exact H3].
+      exfalso. specialize (H2 k (or_introl eq_refl)). unfold comparable in H2. rewrite Etk in H2. discriminate.
+  - destruct (is_prefix k target) eqn:Ekt.
+    + split; [intros []|]. intros [H1 [H2 _]].
+      specialize (H2 k (or_introl eq_refl)). unfold comparable in H2.
+      rewrite (is_prefix_trans _ _ _ Ekt H1) in H2. rewrite orb_true_r in H2. discriminate.
+    + split.
+      * intros [<-|[]]. split; [apply is_prefix_refl|]. split; [|left; reflexivity].
+        intros k' [<-|[]]. unfold comparable. rewrite Etk, Ekt. reflexivity.
+      * intros [H1 [H2 [H3|[k' [[<-|[]] H3]]]]]; [left; symmetry; exact H3|].
+        destruct (list_eq_dec Bool.bool_dec x target) as [->|Hne]; [left; reflexivity|exfalso].
+        assert (Pr : is_prefix target (removelast x) = true).
+        { apply is_prefix_exists in H1 as [s ->]. destruct s as [|a s] using rev_ind.
+          - rewrite app_nil_r in Hne. congruence.
+          - rewrite app_assoc, removelast_snoc. apply is_prefix_app. }
+        unfold comparable in H3. apply orb_true_iff in H3 as [H3|H3].
+        -- rewrite (is_prefix_trans _ _ _ Pr H3) in Etk. discriminate.
+        -- pose proof (prefixes_of_same_comparable _ _ _ H3 Pr) as C. unfold comparable in C.
+           rewrite Ekt, Etk in C. discriminate.
+Qed.
+
+Lemma map_app_skipn p l : (forall x, In x l -> is_prefix p x = true) ->
+  map (app p) (map (skipn (length p)) l) = l.
+Proof.
+  intro H. rewrite map_map. rewrite <- (map_id l) at 2. apply map_ext_in. intros x Hx.
+  apply app_skipn_prefix. apply H. exact Hx.
+Qed.
+
+Lemma is_gap_under K T x : is_gap K T x -> is_prefix T x = true.
+Proof. intros [H _]. exact H. Qed.
+
+(* what one visited branch contributes, in absolute terms (p prepended): the gaps of the branch
+   below the target as seen from the branch *)
 Lemma gaps_visit_spec rec (t0 t1 : trie D) p depth target order i :
   wf_at p (Nd t0 t1) -> length p = depth ->
-  (length target <= depth \/ nth_error target depth = Some i) ->
+  (length target <= depth \/ (is_prefix p target = true /\ nth_error target depth = Some i)) ->
   (forall c, c = child t0 t1 i -> forall a b, c = Nd a b ->
      exists g, rec c (S depth) target order = Ok g /\
-       forall x, In x (map (app (p ++ [i])) g) <-> is_gap (keys_of c) (eff_at c (S depth) target (p ++ [i])) x) ->
+       forall x, In x (map (app (p ++ [i])) g) <-> is_gap (keys_of c) (tgt (S depth) target (p ++ [i])) x) ->
   exists g, gaps_visit rec t0 t1 depth target order i = Ok g /\
     forall x, In x (map (app p) g) <->
-              child_gaps (child t0 t1 i) (p ++ [i]) (eff_at (child t0 t1 i) (S depth) target (p ++ [i])) x.
+              is_gap (keys_of (child t0 t1 i)) (tgt (S depth) target (p ++ [i])) x.
 Proof.
   intros Hw Hp Hvis IH. unfold gaps_visit.
   assert (Hskip : (if length target <=? depth then Ok false
                    else tb <- bit_at target depth ;; Ok (negb (Bool.eqb i tb))) = Ok false).
   { destruct (length target <=? depth) eqn:E1; [reflexivity|]. apply Nat.leb_gt in E1.
-    destruct Hvis as [H|H]; [lia|]. unfold bit_at. rewrite H. simpl. rewrite eqb_reflx. reflexivity. }
+    destruct Hvis as [H|[_ H]]; [lia|]. unfold bit_at. rewrite H. simpl. rewrite eqb_reflx. reflexivity. }
   rewrite Hskip. cbn [bind]. cbv zeta.
   pose proof (wf_at_child p t0 t1 i Hw) as Wc.
-  destruct (child t0 t1 i) as [|k d|a b] eqn:Ec.
-  - exists [[i]]. split; [reflexivity|]. intro x. simpl. intuition.
-  - simpl in Wc. simpl child_gaps.
-    assert (Lp : length (p ++ [i]) = S depth) by (rewrite app_length; simpl; lia).
-    destruct (S depth <? length k) eqn:El.
-    + eexists. split; [reflexivity|]. intro x. rewrite map_map. rewrite in_map_iff. split.
-      * intros [y [Ey Hy]]. apply sort_by_order_In in Hy. apply sib_skipn in Hy as [a [b [r [E1 [E2 Hl]]]]].
-        assert (Py : is_prefix p y = true).
-        { subst y k. apply is_prefix_snoc_l in Wc. apply is_prefix_app_r.
-          eapply is_prefix_app_inv; [exact Wc|lia]. }
-        rewrite <- Hp in Ey. rewrite (app_skipn_prefix p y Py) in Ey. subst x.
-        exists a, b, r. rewrite Lp. auto.
-      * intros [a [b [r [E1 [E2 Hl]]]]]. exists x. rewrite Lp in Hl. split.
-        -- rewrite <- Hp. apply app_skipn_prefix. subst x k. apply is_prefix_snoc_l in Wc.
-           apply is_prefix_app_r. eapply is_prefix_app_inv; [exact Wc|lia].
-        -- apply sort_by_order_In. apply sib_skipn. exists a, b, r. auto.
-    + exists []. split; [reflexivity|]. intro x. simpl. split; [intros []|].
-      intros [a [b [r [E1 [E2 Hl]]]]]. apply Nat.ltb_ge in El. subst k. rewrite app_length in El. simpl in El. lia.
-  - destruct (IH (Nd a b) eq_refl a b eq_refl) as [g [Eg Hg]]. rewrite Eg. cbn [bind].
-    exists (map (cons i) g). split; [reflexivity|]. intro x. rewrite map_map.
-    rewrite <- (Hg x). rewrite !in_map_iff. split; intros [y [Ey Hy]]; exists y; (split; [|exact Hy]);
-      rewrite <- Ey, <- app_assoc; reflexivity.
-Qed.
-
-Lemma eff_extends (s : trie D) : forall depth target path, is_prefix path (eff_at s depth target path) = true.
-Proof.
-  induction s as [|k d|t0 IH0 t1 IH1]; intros depth target path; simpl; try apply is_prefix_refl.
-  destruct (nth_error target depth) as [i|]; [|apply is_prefix_refl].
-  destruct i; simpl.
-  - destruct t1; try apply is_prefix_app.
-    eapply is_prefix_trans; [apply (is_prefix_app path [true])|apply IH1].
-  - destruct t0; try apply is_prefix_app.
-    eapply is_prefix_trans; [apply (is_prefix_app path [false])|apply IH0].
-Qed.
-
-Lemma eff_inside (s : trie D) depth target path : length target <= depth -> eff_at s depth target path = path.
-Proof.
-  intro H. destruct s; simpl; try reflexivity.
-  destruct (nth_error target depth) eqn:E1; [|reflexivity].
-  assert (depth < length target) by (apply nth_error_Some; congruence). lia.
+  assert (Lp : length (p ++ [i]) = S depth) by (rewrite app_length; simpl; lia).
+  unfold tgt.
+  destruct (negb (length target <=? depth) && (S depth <? length target)) eqn:Eab.
+  - (* the trie may end above the target *)
+    apply andb_true_iff in Eab as [Ea Eb]. apply negb_true_iff in Ea. apply Nat.leb_gt in Ea. apply Nat.ltb_lt in Eb.
+    destruct Hvis as [H|[Ppt Hn]]; [lia|].
+    assert (E2 : (length target <=? S depth) = false) by (apply Nat.leb_gt; lia). rewrite E2.
+    destruct (child t0 t1 i) as [|k d|a b] eqn:Ec.
+    + eexists. split; [reflexivity|]. intro x. rewrite <- Hp. rewrite map_app_skipn.
+      * apply (leaf_gaps_none target order x).
+      * intros y Hy. apply (leaf_gaps_none target order) in Hy. apply is_gap_under in Hy. eapply is_prefix_trans; eauto.
+    + eexists. split; [reflexivity|]. intro x. rewrite <- Hp. rewrite map_app_skipn.
+      * apply (leaf_gaps_some k target order x).
+      * intros y Hy. apply (leaf_gaps_some k target order) in Hy. apply is_gap_under in Hy. eapply is_prefix_trans; eauto.
+    + destruct (IH (Nd a b) eq_refl a b eq_refl) as [g [Eg Hg]]. rewrite Eg. cbn [bind].
+      exists (map (cons i) g). split; [reflexivity|]. intro x. rewrite map_map.
+      unfold tgt in Hg. rewrite E2 in Hg. rewrite <- (Hg x). rewrite !in_map_iff.
+      split; intros [y [Ey Hy]]; exists y; (split; [|exact Hy]); rewrite <- Ey, <- app_assoc; reflexivity.
+  - (* at or below the depth of the target: the branch is judged from its own path *)
+    assert (E2 : (length target <=? S depth) = true).
+    { apply Nat.leb_le. apply andb_false_iff in Eab as [Ea|Eb].
+      - apply negb_false_iff in Ea. apply Nat.leb_le in Ea. lia.
+      - apply Nat.ltb_ge in Eb. exact Eb. }
+    rewrite E2.
+    destruct (child t0 t1 i) as [|k d|a b] eqn:Ec.
+    + exists [[i]]. split; [reflexivity|]. intro x. unfold keys_of. simpl.
+      rewrite <- (leaf_gaps_none (p ++ [i]) order x). simpl. intuition.
+    + simpl in Wc. unfold keys_of. cbn [entries map fst].
+      destruct (S depth <? length k) eqn:El.
+      * eexists. split; [reflexivity|]. intro x. rewrite map_map. rewrite in_map_iff.
+        assert (Core : (exists a b r, k = a ++ b :: r /\ x = a ++ [negb b] /\ length (p ++ [i]) <= length a)
+                       <-> is_gap [k] (p ++ [i]) x).
+        { rewrite (leaf_sib_gaps (p ++ [i]) k x Wc). unfold is_gap, incomparable_all. simpl. split.
+          - intros [H1 [H2 H3]]. split; [exact H1|]. split; [intros k' [<-|[]]; exact H2|]. right. exists k. auto.
+          - intros [H1 [H2 H3]]. split; [exact H1|]. split; [apply H2; left; reflexivity|].
+            destruct H3 as [->|[k' [[<-|[]] H3]]]; [|exact H3].
+            exfalso. specialize (H2 k (or_introl eq_refl)). unfold comparable in H2. rewrite Wc in H2. discriminate. }
+        rewrite <- Core. split.
+        -- intros [y [Ey Hy]]. apply sort_by_order_In in Hy. apply sib_skipn in Hy as [a [b [r [E1 [E3 Hl]]]]].
+           assert (Py : is_prefix p y = true).
+           { subst y k. apply is_prefix_snoc_l in Wc. apply is_prefix_app_r.
+             eapply is_prefix_app_inv; [exact Wc|lia]. }
+           rewrite <- Hp in Ey. rewrite (app_skipn_prefix p y Py) in Ey. subst x.
+           exists a, b, r. rewrite Lp. auto.
+        -- intros [a [b [r [E1 [E3 Hl]]]]]. exists x. rewrite Lp in Hl. split.
+           ++ rewrite <- Hp. apply app_skipn_prefix. subst x k. apply is_prefix_snoc_l in Wc.
+              apply is_prefix_app_r. eapply is_prefix_app_inv; [exact Wc|lia].
+           ++ apply sort_by_order_In. apply sib_skipn. exists a, b, r. auto.
+      * exists []. split; [reflexivity|]. intro x. simpl. split; [intros []|].
+        intros [H1 [H2 H3]]. apply Nat.ltb_ge in El.
+        (* k is the path itself: everything below is comparable with k *)
+        assert (k = p ++ [i]) by (symmetry; apply is_prefix_same_length; [exact Wc|apply is_prefix_length in Wc; lia]).
+        subst k. specialize (H2 _ (or_introl eq_refl)). unfold comparable in H2. rewrite H1 in H2.
+        rewrite orb_true_r in H2. discriminate.
+    + destruct (IH (Nd a b) eq_refl a b eq_refl) as [g [Eg Hg]]. rewrite Eg. cbn [bind].
+      exists (map (cons i) g). split; [reflexivity|]. intro x. rewrite map_map.
+      unfold tgt in Hg. rewrite E2 in Hg. rewrite <- (Hg x). rewrite !in_map_iff.
+      split; intros [y [Ey Hy]]; exists y; (split; [|exact Hy]); rewrite <- Ey, <- app_assoc; reflexivity.
 Qed.
 
 Lemma removelast_under p' x : is_prefix p' x = true -> x <> p' -> is_prefix p' (removelast x) = true.
@@ -306,23 +353,6 @@ Definition below_child (x : bits) : Prop :=
   is_prefix p' x = true /\ incomparable_all Kc x /\
   (x = p' \/ exists k, In k Kc /\ comparable (removelast x) k = true).
 
-(* child_gaps for a leaf or empty child is below_child *)
-Lemma child_gaps_leaf e x : (match c with Nd _ _ => False | _ => True end) ->
-  (child_gaps c p' e x <-> below_child x).
-Proof.
-  intro Hshape. pose proof (wf_at_child p t0 t1 i Hw) as Wc. unfold below_child.
-  destruct c as [|k d|a b] eqn:Ec; [| |contradiction]; simpl child_gaps.
-  - unfold keys_of. simpl. split.
-    + intros ->. split; [apply is_prefix_refl|]. split; [intros k []|left; reflexivity].
-    + intros [_ [_ [H|[k [[] _]]]]]. exact H.
-  - simpl in Wc. rewrite (leaf_gaps p' k x Wc). unfold keys_of, incomparable_all. simpl. split.
-    + intros [H1 [H2 H3]]. split; [exact H1|]. split; [intros k' [<-|[]]; exact H2|].
-      right. exists k. auto.
-    + intros [H1 [H2 H3]]. split; [exact H1|]. split; [apply H2; left; reflexivity|].
-      destruct H3 as [->|[k' [[<-|[]] H3]]]; [|exact H3].
-      exfalso. specialize (H2 k (or_introl eq_refl)). unfold comparable in H2. rewrite Wc in H2. discriminate.
-Qed.
-
 (* descending: the effective target e lies below p' *)
 Lemma is_gap_descend e x :
   is_prefix p' e = true ->
@@ -369,11 +399,6 @@ Proof.
     apply is_prefix_app.
 Qed.
 
-Lemma eff_at_descend (t0 t1 : trie D) depth target p tb :
-  nth_error target depth = Some tb ->
-  eff_at (Nd t0 t1) depth target p = eff_at (child t0 t1 tb) (S depth) target (p ++ [tb]).
-Proof. intro H. cbn [eff_at]. rewrite H. cbv zeta. destruct (child t0 t1 tb); reflexivity. Qed.
-
 Lemma visit_skip rec (t0 t1 : trie D) depth target order tb :
   nth_error target depth = Some tb ->
   gaps_visit rec t0 t1 depth target order (negb tb) = Ok [].
@@ -384,64 +409,46 @@ Proof.
   unfold bit_at. rewrite H. simpl. destruct tb; reflexivity.
 Qed.
 
-(* child_gaps in terms of the gaps of the whole node *)
-Lemma child_gaps_inside (t0 t1 : trie D) p i x :
-  wf_at p (Nd t0 t1) ->
-  (child_gaps (child t0 t1 i) (p ++ [i]) (p ++ [i]) x <->
-   is_prefix (p ++ [i]) x = true /\ is_gap (keys_of (Nd t0 t1)) p x).
-Proof.
-  intro Hw.
-  assert (B : child_gaps (child t0 t1 i) (p ++ [i]) (p ++ [i]) x <-> below_child t0 t1 p i x).
-  { destruct (child t0 t1 i) as [|k d|a b] eqn:Ec.
-    - rewrite <- Ec. apply child_gaps_leaf; [exact Hw|rewrite Ec; exact I].
-    - rewrite <- Ec. apply child_gaps_leaf; [exact Hw|rewrite Ec; exact I].
-    - simpl child_gaps. unfold below_child, is_gap. rewrite Ec. tauto. }
-  rewrite B. split.
-  - intro H. assert (Px : is_prefix (p ++ [i]) x = true) by apply H. split; [exact Px|].
-    apply (is_gap_inside t0 t1 p i Hw x Px). exact H.
-  - intros [Px G]. apply (is_gap_inside t0 t1 p i Hw x Px). exact G.
-Qed.
-
-Lemma child_gaps_descend (t0 t1 : trie D) p i depth target x :
-  wf_at p (Nd t0 t1) ->
-  let e := eff_at (child t0 t1 i) (S depth) target (p ++ [i]) in
-  (child_gaps (child t0 t1 i) (p ++ [i]) e x <-> is_gap (keys_of (Nd t0 t1)) e x).
-Proof.
-  intros Hw e. pose proof (eff_extends (child t0 t1 i) (S depth) target (p ++ [i])) as He. fold e in He.
-  rewrite (is_gap_descend t0 t1 p i Hw e x He).
-  destruct (child t0 t1 i) as [|k d|a b] eqn:Ec.
-  - assert (e = p ++ [i]) by reflexivity. rewrite H. rewrite <- Ec.
-    rewrite (child_gaps_leaf t0 t1 p i Hw); [|rewrite Ec; exact I]. unfold below_child. tauto.
-  - assert (e = p ++ [i]) by reflexivity. rewrite H. rewrite <- Ec.
-    rewrite (child_gaps_leaf t0 t1 p i Hw); [|rewrite Ec; exact I]. unfold below_child. tauto.
-  - simpl child_gaps. unfold is_gap. tauto.
-Qed.
-
 Lemma gaps_at_spec (s : trie D) : forall p depth target order,
   wf_at p s -> length p = depth -> (match s with Nd _ _ => True | _ => False end) ->
   height s + depth <= length order ->
+  (length target <= depth \/ is_prefix p target = true) ->
   exists g, gaps_at s depth target order = Ok g /\
-            forall x, In x (map (app p) g) <-> is_gap (keys_of s) (eff_at s depth target p) x.
+            forall x, In x (map (app p) g) <-> is_gap (keys_of s) (tgt depth target p) x.
 Proof.
-  induction s as [|k d|t0 IH0 t1 IH1]; intros p depth target order Hw Hp Hnd Hh; try contradiction.
+  induction s as [|k d|t0 IH0 t1 IH1]; intros p depth target order Hw Hp Hnd Hh Hal; try contradiction.
   rewrite gaps_at_Nd. simpl in Hh.
   destruct (bit_at_lt order depth) as [ob [Hob _]]; [lia|]. rewrite Hob. cbn [bind].
-  (* the recursive calls on inner children *)
-  assert (IH : forall i c, c = child t0 t1 i -> forall a b, c = Nd a b ->
-     exists g, gaps_at c (S depth) target order = Ok g /\
-       forall x, In x (map (app (p ++ [i])) g) <-> is_gap (keys_of c) (eff_at c (S depth) target (p ++ [i])) x).
-  { intros i c Ec a b Ecs. pose proof (wf_at_child p t0 t1 i Hw) as Wc. pose proof (height_child t0 t1 i) as Hc.
-    rewrite <- Ec in Wc, Hc. simpl in Hc.
-    destruct i; simpl in Ec; subst c.
-    - apply (IH1 (p ++ [true]) (S depth)); auto; [rewrite app_length; simpl; lia|rewrite Ecs; exact I|lia].
-    - apply (IH0 (p ++ [false]) (S depth)); auto; [rewrite app_length; simpl; lia|rewrite Ecs; exact I|lia]. }
   destruct (nth_error target depth) as [tb|] eqn:Et.
   - (* descending along the target: only the branch of the target is visited *)
-    rewrite (eff_at_descend t0 t1 depth target p tb Et).
-    destruct (gaps_visit_spec gaps_at t0 t1 p depth target order tb Hw Hp (or_intror Et) (IH tb)) as [g [Eg Hg]].
-    assert (Final : forall x, In x (map (app p) g) <->
-              is_gap (keys_of (Nd t0 t1)) (eff_at (child t0 t1 tb) (S depth) target (p ++ [tb])) x).
-    { intro x. rewrite (Hg x). apply child_gaps_descend. exact Hw. }
+    assert (Hlt : depth < length target) by (apply nth_error_Some; congruence).
+    destruct Hal as [Hal|Ppt]; [lia|].
+    assert (Ppt' : is_prefix (p ++ [tb]) target = true) by (apply is_prefix_snoc; rewrite Hp; auto).
+    assert (IH : forall c, c = child t0 t1 tb -> forall a b, c = Nd a b ->
+       exists g, gaps_at c (S depth) target order = Ok g /\
+         forall x, In x (map (app (p ++ [tb])) g) <-> is_gap (keys_of c) (tgt (S depth) target (p ++ [tb])) x).
+    { intros c Ec a b Ecs. pose proof (wf_at_child p t0 t1 tb Hw) as Wc. pose proof (height_child t0 t1 tb) as Hc.
+      rewrite <- Ec in Wc, Hc. simpl in Hc.
+      destruct tb; simpl in Ec; subst c.
+      - apply (IH1 (p ++ [true]) (S depth) target order Wc).
+        + rewrite app_length; simpl; lia.
+        + rewrite Ecs; exact I.
+        + lia.
+        + right; exact Ppt'.
+      - apply (IH0 (p ++ [false]) (S depth) target order Wc).
+        + rewrite app_length; simpl; lia.
+        + rewrite Ecs; exact I.
+        + lia.
+        + right; exact Ppt'. }
+    destruct (gaps_visit_spec gaps_at t0 t1 p depth target order tb Hw Hp (or_intror (conj Ppt Et)) IH) as [g [Eg Hg]].
+    assert (Etgt : tgt (S depth) target (p ++ [tb]) = target).
+    { unfold tgt. destruct (length target <=? S depth) eqn:E1; [|reflexivity]. apply Nat.leb_le in E1.
+      apply is_prefix_same_length; [exact Ppt'|rewrite app_length; simpl; lia]. }
+    assert (Etgt0 : tgt depth target p = target).
+    { unfold tgt. destruct (length target <=? depth) eqn:E1; [apply Nat.leb_le in E1; lia|reflexivity]. }
+    assert (Final : forall x, In x (map (app p) g) <-> is_gap (keys_of (Nd t0 t1)) (tgt depth target p) x).
+    { intro x. rewrite (Hg x), Etgt, Etgt0.
+      rewrite (is_gap_descend t0 t1 p tb Hw target x Ppt'). unfold is_gap. tauto. }
     destruct (Bool.eqb ob tb) eqn:Eo.
     + apply eqb_prop in Eo. subst ob. rewrite Eg. cbn [bind].
       rewrite (visit_skip gaps_at t0 t1 depth target order tb Et). cbn [bind].
@@ -451,13 +458,39 @@ Proof.
       rewrite negb_involutive, Eg. cbn [bind]. exists g. split; [reflexivity|exact Final].
   - (* inside the target: both branches *)
     assert (Hin : length target <= depth) by (apply nth_error_None; exact Et).
-    assert (Eeff : eff_at (Nd t0 t1) depth target p = p) by (apply eff_inside; exact Hin).
-    rewrite Eeff.
+    assert (Etgt0 : tgt depth target p = p) by (unfold tgt; rewrite (proj2 (Nat.leb_le _ _) Hin); reflexivity).
+    rewrite Etgt0.
+    assert (IH : forall i c, c = child t0 t1 i -> forall a b, c = Nd a b ->
+       exists g, gaps_at c (S depth) target order = Ok g /\
+         forall x, In x (map (app (p ++ [i])) g) <-> is_gap (keys_of c) (tgt (S depth) target (p ++ [i])) x).
+    { intros i c Ec a b Ecs. pose proof (wf_at_child p t0 t1 i Hw) as Wc. pose proof (height_child t0 t1 i) as Hc.
+      rewrite <- Ec in Wc, Hc. simpl in Hc.
+      destruct i; simpl in Ec; subst c.
+      - apply (IH1 (p ++ [true]) (S depth) target order Wc).
+        + rewrite app_length; simpl; lia.
+        + rewrite Ecs; exact I.
+        + lia.
+        + left; lia.
+      - apply (IH0 (p ++ [false]) (S depth) target order Wc).
+        + rewrite app_length; simpl; lia.
+        + rewrite Ecs; exact I.
+        + lia.
+        + left; lia. }
     destruct (gaps_visit_spec gaps_at t0 t1 p depth target order ob Hw Hp (or_introl Hin) (IH ob)) as [g1 [E1 H1]].
     destruct (gaps_visit_spec gaps_at t0 t1 p depth target order (negb ob) Hw Hp (or_introl Hin) (IH (negb ob))) as [g2 [E2 H2]].
     rewrite E1. cbn [bind]. rewrite E2. cbn [bind].
     exists (g1 ++ g2). split; [reflexivity|]. intro x. rewrite map_app, in_app_iff, (H1 x), (H2 x).
-    rewrite !eff_inside by lia. rewrite !child_gaps_inside by exact Hw. split.
+    assert (Es : forall i, tgt (S depth) target (p ++ [i]) = p ++ [i]).
+    { intro i. unfold tgt. rewrite (proj2 (Nat.leb_le _ _)) by lia. reflexivity. }
+    rewrite !Es.
+    (* the gaps of a branch below its own path are the gaps of the node that lie in the branch *)
+    assert (Br : forall i, is_gap (keys_of (child t0 t1 i)) (p ++ [i]) x <->
+                          is_prefix (p ++ [i]) x = true /\ is_gap (keys_of (Nd t0 t1)) p x).
+    { intro i. split.
+      - intro G. assert (Px : is_prefix (p ++ [i]) x = true) by apply G. split; [exact Px|].
+        apply (is_gap_inside t0 t1 p i Hw x Px). exact G.
+      - intros [Px G]. apply (is_gap_inside t0 t1 p i Hw x Px). exact G. }
+    rewrite !Br. split.
     + intros [[_ G]|[_ G]]; exact G.
     + intro G. destruct G as [G1 [G2 G3]].
       assert (Hne : x <> p).
@@ -469,109 +502,21 @@ Proof.
         right. split; [exact Pb|]. split; [exact G1|]. split; assumption.
 Qed.
 
-(* the effective target of TrieGaps *)
-Definition eff (t : trie D) (target : bits) : bits :=
-  match t with
-  | Nd _ _ => eff_at t 0 target []
-  | _ => target
-  end.
-
 (* TrieGaps: no panic when the order is at least as long as the trie is deep; the result is
-   exactly the set of gaps of the key set below the EFFECTIVE target *)
-Theorem gaps_effective (t : trie D) target order :
+   exactly the set of gaps of the key set below the target, for every target *)
+Theorem gaps_exact (t : trie D) target order :
   wf t -> height t <= length order ->
-  exists g, trie_gaps t target order = Ok g /\
-            forall x, In x g <-> is_gap (keys_of t) (eff t target) x.
-Proof.
-  intros Hw Hh. destruct t as [|k d|t0 t1].
-  - exists [target]. split; [reflexivity|]. intro x. unfold is_gap, keys_of. simpl. split.
-    + intros [<-|[]]. split; [apply is_prefix_refl|]. split; [intros k []|left; reflexivity].
-    + intros [_ [_ [H|[k [[] _]]]]]. left. symmetry. exact H.
-  - cbn [trie_gaps eff]. unfold is_gap, keys_of, incomparable_all. simpl.
-    destruct (is_prefix target k) eqn:Etk.
-    + eexists. split; [reflexivity|]. intro x. rewrite sort_by_order_In, sib_skipn.
-      rewrite (leaf_gaps target k x Etk). split.
-      * intros [H1 [H2 H3]]. split; [exact H1|]. split; [intros k' [<-|[]]; exact H2|]. right. exists k. auto.
-      * intros [H1 [H2 H3]]. split; [exact H1|]. split; [apply H2; left; reflexivity|].
-        destruct H3 as [->|[k' [[<-|[]] H3]]]; [|exact H3].
-        exfalso. specialize (H2 k (or_introl eq_refl)). unfold comparable in H2. rewrite Etk in H2. discriminate.
-    + destruct (is_prefix k target) eqn:Ekt.
-      * exists []. split; [reflexivity|]. intro x. split; [intros []|]. intros [H1 [H2 _]].
-        specialize (H2 k (or_introl eq_refl)). unfold comparable in H2.
-        rewrite (is_prefix_trans _ _ _ Ekt H1) in H2. rewrite orb_true_r in H2. discriminate.
-      * exists [target]. split; [reflexivity|]. intro x. split.
-        -- intros [<-|[]]. split; [apply is_prefix_refl|]. split; [|left; reflexivity].
-           intros k' [<-|[]]. unfold comparable. rewrite Etk, Ekt. reflexivity.
-        -- intros [H1 [H2 [H3|[k' [[<-|[]] H3]]]]]; [left; symmetry; exact H3|].
-           destruct (list_eq_dec Bool.bool_dec x target) as [->|Hne]; [left; reflexivity|exfalso].
-           pose proof (removelast_under target x H1 Hne) as Pr.
-           unfold comparable in H3. apply orb_true_iff in H3 as [H3|H3].
-           ++ rewrite (is_prefix_trans _ _ _ Pr H3) in Etk. discriminate.
-           ++ (* k and target are both prefixes of the parent of x: comparable *)
-              pose proof (prefixes_of_same_comparable _ _ _ H3 Pr) as C. unfold comparable in C.
-              rewrite Ekt, Etk in C. discriminate.
-  - destruct (gaps_at_spec (Nd t0 t1) [] 0 target order Hw eq_refl I) as [g [Eg Hg]]; [simpl in *; lia|].
-    exists g. split; [exact Eg|]. intro x. rewrite <- (Hg x). rewrite map_id. tauto.
-Qed.
-
-(* the use by RefreshSchedule: with the empty target the result is exact *)
-Corollary gaps_exact_root (t : trie D) order :
-  wf t -> height t <= length order ->
-  exists g, trie_gaps t [] order = Ok g /\ forall x, In x g <-> is_gap (keys_of t) [] x.
-Proof.
-  intros Hw Hh. destruct (gaps_effective t [] order Hw Hh) as [g [Eg Hg]].
-  exists g. split; [exact Eg|]. intro x. rewrite (Hg x).
-  assert (E1 : eff t [] = []) by (destruct t; reflexivity). rewrite E1. tauto.
-Qed.
-
-(* more generally: exact whenever the trie branches all along the target *)
-Corollary gaps_exact_when_effective (t : trie D) target order :
-  wf t -> height t <= length order -> eff t target = target ->
   exists g, trie_gaps t target order = Ok g /\ forall x, In x g <-> is_gap (keys_of t) target x.
 Proof.
-  intros Hw Hh He. destruct (gaps_effective t target order Hw Hh) as [g [Eg Hg]].
-  exists g. split; [exact Eg|]. intro x. rewrite (Hg x), He. tauto.
+  intros Hw Hh. destruct t as [|k d|t0 t1].
+  - eexists. split; [reflexivity|]. intro x. apply leaf_gaps_none.
+  - eexists. split; [reflexivity|]. intro x. unfold keys_of. simpl. apply leaf_gaps_some.
+  - destruct (gaps_at_spec (Nd t0 t1) [] 0 target order Hw eq_refl I) as [g [Eg Hg]]; [simpl in *; lia|right; reflexivity|].
+    exists g. split; [exact Eg|]. intro x.
+    assert (Et : tgt 0 target [] = target).
+    { unfold tgt. destruct (length target <=? 0) eqn:E1; [|reflexivity].
+      apply Nat.leb_le in E1. destruct target; [reflexivity|simpl in E1; lia]. }
+    rewrite <- Et at 1. rewrite <- (Hg x). rewrite map_id. tauto.
 Qed.
-
-(* the effective target is the target or one of its ancestors *)
-Lemma eff_at_prefix (s : trie D) : forall depth target path,
-  is_prefix path target = true -> length path = depth -> is_prefix (eff_at s depth target path) target = true.
-Proof.
-  induction s as [|k d|t0 IH0 t1 IH1]; intros depth target path Hp Hl; simpl; auto.
-  destruct (nth_error target depth) as [i|] eqn:Et; [|exact Hp].
-  assert (Hp' : is_prefix (path ++ [i]) target = true) by (apply is_prefix_snoc; rewrite Hl; auto).
-  assert (Hl' : length (path ++ [i]) = S depth) by (rewrite app_length; simpl; lia).
-  destruct i; simpl.
-  - destruct t1; auto.
-  - destruct t0; auto.
-Qed.
-
-Theorem eff_prefix_of_target (t : trie D) target : is_prefix (eff t target) target = true.
-Proof. destruct t; unfold eff; try apply is_prefix_refl. apply eff_at_prefix; reflexivity. Qed.
 
 End Gaps.
-
-(* ---- F13: with a non-empty target the result is NOT the set of gaps below the target --------- *)
-(* {110, 111}, target 00: the real code (and this transcription) answer ["0"], an ancestor of
-   the target; {101, 111}, target 101 (which is covered): they answer ["100"], beside it. *)
-Definition f13_t1 : trie nat := Nd E (Nd E (Nd (L [true; true; false] 0) (L [true; true; true] 1))).
-Definition f13_t2 : trie nat := Nd E (Nd (L [true; false; true] 0) (L [true; true; true] 1)).
-
-Theorem gaps_within_target_refuted :
-  (wf f13_t1 /\ trie_gaps f13_t1 [false; false] [false; false; false] = Ok [[false]] /\
-   ~ is_gap (keys_of f13_t1) [false; false] [false] /\
-   is_gap (keys_of f13_t1) [false; false] [false; false]) /\
-  (wf f13_t2 /\ trie_gaps f13_t2 [true; false; true] [false; false; false] = Ok [[true; false; false]] /\
-   ~ is_gap (keys_of f13_t2) [true; false; true] [true; false; false] /\
-   forall x, ~ is_gap (keys_of f13_t2) [true; false; true] x).
-Proof.
-  split.
-  - split; [vm_compute; repeat split; auto; lia|]. split; [reflexivity|]. split.
-    + intros [H _]. discriminate.
-    + split; [reflexivity|]. split; [|left; reflexivity].
-      intros k [<-|[<-|[]]]; reflexivity.
-  - split; [vm_compute; repeat split; auto; lia|]. split; [reflexivity|]. split.
-    + intros [H _]. discriminate.
-    + intros x [H1 [H2 _]]. specialize (H2 [true; false; true] (or_introl eq_refl)).
-      unfold comparable in H2. rewrite H1 in H2. rewrite orb_true_r in H2. discriminate.
-Qed.
